@@ -61,7 +61,9 @@ class Engine(EngineBase):
                 "documents, nested files) x target kind {dir, zip, tar, tar.gz, tar.bz2, tar.xz} x path spec "
                 "{None, False, format strings incl. {{auto}} variants, callables incl. non-unique and "
                 "leaf/node-conflicting} x import schema {None, matching schema string, callable}, listing order "
-                "permuted. distinct = (universe, target kind, path spec kind, schema kind, export outcome, import "
+                "permuted; in 30% of the scenarios the import is repeated with EIO on one open / read / directory listing "
+                "of the exported data (seeded position in the fault-free trace); a tenth of the directory exports "
+                "lie at <importing project>/workspace_export. distinct = (universe, target kind, path spec kind, schema kind, export outcome, import "
                 "outcome); non-trivial = at least one job was exported or the export was refused for a reason")
 
     def generate(self, rng, tier):
